@@ -68,6 +68,7 @@ pub fn profile_for(prop: &str) -> Profile {
     match prop {
         "C01" => {
             p.name = "c01";
+            p.long_history_pct = 2;
             p.w = [12, 10, 14, 12, 3, 3, 22, 2, 0, 2, 1, 4, 1, 2, 3, 1, 1, 1, 0, 3];
             p.env = [4, 3, 8, 5, 2, 0, 0, 0];
             p.forks = vec![("c01_order", 6)];
@@ -256,7 +257,10 @@ pub fn gen_cfg(rng: &mut Rng, p: &Profile, fault_free: bool) -> Cfg {
                         a = a.to_uppercase(); // case variant of the same account
                     }
                 }
-                v.push((a, Uint128::new(rng.log_uniform(CAP / 8))));
+                let repeated = v.iter().any(|(x, _)| x.eq_ignore_ascii_case(&a));
+                // a repeated address sometimes comes with an empty row
+                let amount = if repeated && rng.chance(1, 3) { 0 } else { rng.log_uniform(CAP / 8) };
+                v.push((a, Uint128::new(amount)));
             }
             v
         };
@@ -717,7 +721,7 @@ impl Gen {
                         // chaos: the wiring fields also take other values (re-pointing the dispatcher)
                         hub_contract: if chaos && self.rng.chance(1, 3) { Some(self.rng.pick(&[HUB, HUB, "hub2"]).to_string()) } else { None },
                         bsei_reward_contract: if chaos && self.rng.chance(1, 3) { Some(self.rng.pick(&[REWARD, REWARD, "reward2"]).to_string()) } else { None },
-                        stsei_reward_denom: if chaos && self.rng.chance(1, 5) { Some(DENOM.into()) } else { None },
+                        stsei_reward_denom: if chaos && self.rng.chance(1, 5) { Some(self.rng.pick(&[DENOM, "USEI", "Usei"]).to_string()) } else { None },
                         bsei_reward_denom: if chaos && self.rng.chance(1, 3) { Some(self.rng.pick(&[REWARD_DENOM, REWARD_DENOM, "uother"]).to_string()) } else { None },
                         krp_keeper_address: ka,
                         krp_keeper_rate: rate,
